@@ -18,12 +18,12 @@ UXTB, UXTH, UXTW, UXTX, SXTB, SXTH, SXTW, SXTX = 6, 7, 8, 9, 10, 11, 12, 13
 # LDR/STR (immediate, unsigned offset) fall back to the unscaled LDUR/STUR encodings when the offset does not fit (ARM ARM
 # C6.2 "LDR (immediate)" assembler note; GNU as and llvm-mc do the same).
 ALT_MNEMONIC = {"ldr": "ldur", "ldrb": "ldurb", "ldrh": "ldurh", "ldrsb": "ldursb", "ldrsh": "ldursh", "ldrsw": "ldursw",
-                "str": "stur", "strb": "sturb", "strh": "sturh"}
+                "str": "stur", "strb": "sturb", "strh": "sturh", "prfm": "prfum"}
 
 # LDP/STP encoding class of the assembler: write-back addressing with a zero offset is emitted as the plain signed-offset word
 PAIR_NAMES = {"ldp", "stp", "ldpsw", "stgp"}
 INVERTIBLE = {"SGp", "SImmU", "SImmS", "SCond", "SRel", "SMemBase", "SMemOff", "SMemLit", "SShift", "SVec", "SVecElem",
-              "SGpDup", "SImmLt", "SSysReg", "SImmConst", "SMemPostImm", "SMemPostReg", "SMemIdx", "SMemPair"}
+              "SGpDup", "SImmLt", "SSysReg", "SImmConst", "SMemPostImm", "SMemPostReg", "SMemIdx", "SMemPair", "SGpPair", "SSysOp"}
 INV_COND = {"cinc", "cinv", "cneg", "cset", "csetm"}
 
 
@@ -182,6 +182,14 @@ def parse_ops(r):
             imm = ""
             i += 1
             continue
+        mp = re.match(r"^2x\{([WX])([a-z])\}\+$", o)
+        if mp and ("R" + mp.group(2)) in F:
+            syn.append(("SGpPair", mp.group(1) == "X", "R" + mp.group(2)))
+            i += 1
+            continue
+        if o == "+" and i > 0 and ops[i - 1].startswith("2x{"):      # continuation slot of a GP pair
+            i += 1
+            continue
         if o == "":            # continuation slot of a register list (db/aarch64.js expands "Nx{...}" into N operands)
             i += 1
             continue
@@ -283,9 +291,9 @@ def parse_ops(r):
             i += 1
             continue
         if m and m.group(1) == "relS":
-            if name == "adrp":
-                raise Unsupported("adrp page arithmetic")
-            syn.append(("SRel", need("relS"), fwidth(r, "relS"), 1))
+            # ADRP: the displacement between the 4 KiB pages, i.e. a byte displacement that is a multiple of 4096 (the assembler binds labels
+            # relative to the instruction, so page arithmetic on absolute addresses does not arise)
+            syn.append(("SRel", need("relS"), fwidth(r, "relS"), 4096 if name == "adrp" else 1))
             i += 1
             continue
         if o == "#relS*4":
@@ -297,6 +305,12 @@ def parse_ops(r):
             syn.append(("SImmU", ms.group(1), fwidth(r, ms.group(1)), int(ms.group(2))))
             i += 1
             continue
+        if m and re.match(r"^Imm(At|DC|IC|TLBI)\(%s\)$" % m.group(1), imm) and all(x in F for x in ("op1", "CRm", "op2")) \
+                and fwidth(r, "op1") == 3 and fwidth(r, "CRm") == 4 and fwidth(r, "op2") == 3:
+            syn.append(("SSysOp", "op1", "CRm", "op2", (r["value"] >> 12) & 15))      # CRn is part of the instruction's fixed bits
+            imm = ""
+            i += 1
+            continue
         if m:
             f = m.group(1)
             mi = re.match(r"^(LogicalImm|ImmLogical)\((\w+), ([01])\)$", imm)
@@ -304,6 +318,8 @@ def parse_ops(r):
                 syn.append(("SLogImm", mi.group(3) == "1", f))
                 i += 1
                 continue
+            if re.match(r"^Imm(DataBarrier|PRF)\(\w+\)$", imm):
+                imm = ""          # named operand values (barrier option, prefetch operation) are plain unsigned immediates of the field's width
             if imm:
                 raise Unsupported("immediate transformation %s" % imm.split("(")[0])
             if f == "immS":
@@ -357,13 +373,13 @@ SYN_FIELDS = {   # which args are field names, and the declared widths (mirror o
     "SLogImm": lambda a: [(a[1], 13)], "SGpDup": lambda a: [(a[2], 5), (a[3], 5)], "SImmLt": lambda a: [(a[0], a[1])],
     "SBitfield": lambda a: [(a[2], 6), (a[3], 6)], "SMovW": lambda a: [(a[1], 16), (a[2], 2)], "SSysReg": lambda a: [(a[0], 15)],
     "SImmConst": lambda a: [], "SVec": lambda a: [(a[2], a[3])], "SVecElem": lambda a: [(a[1], a[2]), (a[3], a[4])],
-    "SVShift": lambda a: [(a[2], 4), (a[3], 3)], "SVecList": lambda a: [(a[3], 5)], "SMemPostReg": lambda a: [(a[0], 5), (a[1], 5)], "SMemPostImm": lambda a: [(a[0], 5)],
+    "SVShift": lambda a: [(a[2], 4), (a[3], 3)], "SGpPair": lambda a: [(a[1], 5)], "SSysOp": lambda a: [(a[0], 3), (a[1], 4), (a[2], 3)], "SVecList": lambda a: [(a[3], 5)], "SMemPostReg": lambda a: [(a[0], 5), (a[1], 5)], "SMemPostImm": lambda a: [(a[0], 5)],
 }
 FIELD_ARGPOS = {"SGp": [2], "SImmU": [0], "SImmS": [0], "SCond": [0], "SShift": [0, 1], "SExtReg": [1, 2, 3], "SAddImm": [0, 1], "SRel": [0],
                 "SMemBase": [0], "SMemOff": [0, 1], "SMemPair": [0, 1, 4, 5], "SMemIdx": [0, 1, 2, 3], "SMemLit": [0], "SLogImm": [1],
                 "SGpDup": [2, 3], "SImmLt": [0], "SBitfield": [2, 3], "SMovW": [1, 2], "SSysReg": [0],
                 "SImmConst": [], "SVec": [2], "SVecElem": [1, 3], "SVecList": [3], "SMemPostReg": [0, 1], "SMemPostImm": [0],
-                "SVShift": [2, 3]}
+                "SVShift": [2, 3], "SGpPair": [1], "SSysOp": [0, 1, 2]}
 
 
 def template_items(r):
@@ -412,7 +428,7 @@ def classify(rows, excluded=None):
     exk = {(o["inst"], o["op"]) for o in (excluded or [])}
     for r in rows:
         cats = set(r["cat"])
-        if (r["inst"], r["opstr"]) in exk:
+        if (r["inst"], r["opstr"]) in exk and not r.get("revalidate"):
             r["excluded"] = True
             unsup.append((r, "DB row recorded as defective (corpus/C02/db_excluded.json): excluded from the model"))
             continue
@@ -476,7 +492,15 @@ def coq_syn(s, fid):
     return "%s %s" % (s[0], " ".join(args))
 
 
-def coq_text(sup, mn_id, fid, nchunk=100):
+def coq_row(s, mn_id, fid):
+    r = s["row"]
+    items = "; ".join(("TFixed %d %d" % (it[1], it[2])) if it[0] == "F" else ("TField %d %d %d" % (fid[it[1]], it[2], it[3])) for it in s["items"])
+    return "  (* %s *) {| r_id := %d; r_mn := %d; r_ops := [%s]; r_tmpl := [%s]; r_fields := [%s] |}" % (
+        (r["inst"] + " | " + r["opstr"]).replace("(*", "( *").replace("*)", "* )"), r["idx"], mn_id[r["name"]],
+        "; ".join(coq_syn(x, fid) for x in s["syn"]), items, "; ".join("(%d, %d)" % (fid[f], w) for f, w in s["fields"]))
+
+
+def coq_text(sup, mn_id, fid, nchunk=100, exsup=()):
     L = []
     L.append("(* GENERATED by tools/c02_rows.py from /repo/db/isa_aarch64.json (via the repository's db/index.js). Do not edit.")
     L.append("   One row per supported form of the ISA database: mnemonic number, operand syntaxes, bit template, field widths.")
@@ -500,6 +524,10 @@ def coq_text(sup, mn_id, fid, nchunk=100):
         L.append(";\n".join(ents))
         L.append("].")
     L.append("Definition rows : list row := %s." % " ++ ".join("rows_%d" % i for i in range(len(chunks))))
+    L.append("(* rows recorded as defective in corpus/C02/db_excluded.json: translated only to re-validate on every run that they still disagree *)")
+    L.append("Definition rows_excluded : list row := [")
+    L.append(";\n".join(coq_row(s, mn_id, fid) for s in exsup))
+    L.append("].")
     L.append("Definition mov_mn : Z := %d." % mn_id.get("mov", -1))
     L.append("Definition alt_table : list (Z * Z) := [%s]." % "; ".join("(%d, %d)" % (mn_id[a], mn_id[b]) for a, b in sorted(ALT_MNEMONIC.items())))
     L.append("Definition row_count : Z := %d." % len(sup))
@@ -509,10 +537,8 @@ def coq_text(sup, mn_id, fid, nchunk=100):
     L.append("Proof. vm_compute. reflexivity. Qed.")
     L.append("Lemma rows_count : Z.of_nat (length rows) = row_count.")
     L.append("Proof. vm_compute. reflexivity. Qed.")
-    ninv = len([s for s in sup if all(x[0] in INVERTIBLE for x in s["syn"])])
-    L.append("(* rows all of whose operand syntaxes are inverted by unbind1 (scope of C02_operands_recovered / C02_refusal_exact) *)")
-    L.append("Definition rows_inv_count : Z := %d." % ninv)
-    L.append("Lemma rows_inv_counted : Z.of_nat (length (filter row_inv rows)) = rows_inv_count.")
+    L.append("(* every row's operand syntaxes are inverted by unbind1 and its hi register ids are SP/ZR: scope of C02_operands_recovered / C02_refusal_exact *)")
+    L.append("Lemma rows_all_inv : forallb row_inv rows = true.")
     L.append("Proof. vm_compute. reflexivity. Qed.")
     return "\n".join(L) + "\n"
 
@@ -523,15 +549,19 @@ def build(repo=None):
     rows = expand_simd(rows)
     excluded = load_excluded()
     sup, unsup = classify(rows, excluded)
+    # the excluded rows are translated too (separate list rows_excluded, never used by spec_a64) so that every run can re-validate that
+    # each of them still disagrees with the assembler and llvm-mc (a stale exclusion is reported)
+    exrows = [dict(json.loads(json.dumps(r)), revalidate=True) for r, _ in unsup if r.get("excluded")]
+    exsup, _ = classify(exrows, excluded)
     present = {(r["inst"], r["opstr"]) for r in rows}
     excluded_applied = [o for o in excluded if (o["inst"], o["op"]) in present]
     # rows are tried in list order: DB order, except that the extended-register forms of ADD/SUB/CMP/CMN come after the
     # shifted-register forms of the same mnemonic (an assembler uses the extended form only when the shifted one cannot take
     # the operands: SP as Rd/Rn or an explicit extend)
     sup.sort(key=lambda e: (e["row"]["name"], 1 if any(s[0] == "SExtReg" for s in e["syn"]) else 0, e["row"]["idx"]))
-    mn_id, fid = numbering(sup)
-    return {"rows": rows, "sup": sup, "unsup": unsup, "mn_id": mn_id, "fid": fid, "applied": applied, "excluded": excluded_applied,
-            "coq": coq_text(sup, mn_id, fid)}
+    mn_id, fid = numbering(sup + exsup)
+    return {"rows": rows, "sup": sup, "unsup": unsup, "mn_id": mn_id, "fid": fid, "applied": applied, "excluded": excluded_applied, "exsup": exsup,
+            "coq": coq_text(sup, mn_id, fid, exsup=exsup)}
 
 
 if __name__ == "__main__":
